@@ -98,9 +98,14 @@ def two_module_sort(binp, rep, thorough, docs=None):
             m1 = gm.module_of(sn[1]["tree"], gm.module_index(sn[1]["tree"], mname))
             for field, v0 in m0.items():
                 v1 = m1.get(field)
-                if field in ("a2lcomment", "__block_info") or not isinstance(v0, list):
+                if field in ("a2lcomment", "__block_info", "name", "long_identifier"):
                     continue
                 key = lambda e: json.dumps(pc.strip_layout(e), sort_keys=True)
+                if not isinstance(v0, list):
+                    # MOD_PAR, MOD_COMMON, VARIANT_CODING, A2ML: unchanged, also in the order of what they hold
+                    if key(v0) != key(v1):
+                        rep.violation(f"sort:element-content:{field}", f"sort() changed something inside {field}", {"kind": "sort2", "a": c["a"]})
+                    continue
                 if sorted(map(key, v0)) != sorted(map(key, v1 or [])):
                     rep.violation(f"sort:element-content:{field}", f"sort() changed something inside an element of the list {field}", {"kind": "sort2", "a": c["a"]})
             ws = [dict(module_children(x["text"]))[mname] for x in sn]
